@@ -6,6 +6,7 @@ import Sqroot.Proofs.MonitorMemo
 import Sqroot.Proofs.MemoDemand
 import Sqroot.Model.Expect
 import Sqroot.Model.Managers
+import Sqroot.Proofs.FprintDemand
 namespace Sqroot.Props.C06
 open Sqroot.Model Sqroot.Proofs
 
@@ -87,5 +88,24 @@ theorem source_consulted_only_by_the_producer :
     Gen.V3.goStatements = ["newMemoizeSpec: result.run()"] := by
   repeat' apply And.intro
   all_goals rfl
+
+/-- bounded read-ahead of printing (v3 `Fprint` / `Sprint`, every range traversed to its end): with
+`r` bounding what earlier reads had demanded, afterwards the demand is bounded by
+`max r (Positions.End())` — at most that + 1 + one block -/
+theorem fprint_read_ahead (c : MemoCfg) (hc : 0 < c.chunk) (m : Memo) (v : Val3) (ranges : List PRange)
+    (hnorm : Spec.NormalRanges (toPairs ranges))
+    (r : Int) (h : DemandLe c m r) (m' : Memo) (feeds : List (List (Nat × Nat)))
+    (hf : fprintFeeds3 c m v ranges = some (m', feeds)) :
+    DemandLe c m' (max r (positionsEnd ranges)) :=
+  Sqroot.Proofs.fprint_read_ahead c hc m v ranges hnorm r h m' feeds hf
+
+/-- … and of the early-exit run under ANY writer (a failing writer never makes `Fprint` read
+further than a reliable one) -/
+theorem fprint_fault_read_ahead (c : MemoCfg) (hc : 0 < c.chunk) (m : Memo) (pr : Printer) (v : Val3)
+    (ranges : List PRange) (hnorm : Spec.NormalRanges (toPairs ranges))
+    (r : Int) (h : DemandLe c m r) (m' : Memo) (pr' : Printer)
+    (hf : rangesFault3 c m pr v ranges = some (.ok (m', pr'))) :
+    DemandLe c m' (max r (positionsEnd ranges)) :=
+  Sqroot.Proofs.fprint_fault_read_ahead c hc m pr v ranges hnorm r h m' pr' hf
 
 end Sqroot.Props.C06
